@@ -36,6 +36,10 @@ def classify(rc, out, err, errstr):
             lines.pop()
         return "exit=0 out=" + ";".join(lines) + " err=-"
     if rc == 1:
+        # on failure stdout carries the state display (rows of the two-column table) and nothing else: hints and logs belong on stderr
+        stray = [l for l in out.split("\n") if l.strip() and "|" not in l and not re.fullmatch(r"-+\+-+", l.strip())]
+        if stray:
+            return "exit=1 out=STRAY:" + stray[0][:60].replace(" ", "_") + " err=?"
         if "invalid script" in err or "failed to initialize script environment" in err:
             return "exit=1 out=- err=refused"
         if "error: exception thrown" in err:
@@ -63,7 +67,7 @@ def run(ctx):
         st = [] if p[6] == "-" else [bytes.fromhex(x) if x != "_" else b"" for x in p[6].split(",")]
         cases.append((sc, st))
     exc = [bytes.fromhex("0501020304058b"), bytes.fromhex("75"), bytes.fromhex("0200008b"), bytes.fromhex("6d"), bytes.fromhex("05ffffffffff0093"),
-           bytes.fromhex("7c"), bytes.fromhex("020080" "91"), bytes.fromhex("0100" "8b"), bytes.fromhex("51" "0600000000000079")]
+           bytes.fromhex("7c"), bytes.fromhex("020080" "91"), bytes.fromhex("510000ae"), bytes.fromhex("0051" "21" + "02" + "11" * 32 + "51ae"), bytes.fromhex("51005100ae"), bytes.fromhex("0100" "8b"), bytes.fromhex("51" "0600000000000079")]
     for sc in exc:
         for st in ([], [b"\x01"], [b"\x01\x02\x03\x04\x05\x06"]):
             cases.append((sc, st))
